@@ -136,7 +136,7 @@ Proof. intros H Ha HL. destruct (m_sched_alloc_inv _ _ _ _ _ _ H) as (ask & n & 
   exists ask. unfold find_ask. rewrite Ha. split; [assumption|]. unfold bind_check. rewrite En.
   destruct (find_node_some _ _ _ En) as [Hin Hid].
   assert (F : fits_free n (oa_res ask) = true) by (apply (n_add_fits n (oa_bound ask nid) n' Eadd); auto).
-  rewrite F, Eres, Erq. cbn [negb N.eqb orb]. unfold m_node_guard in Eg. rewrite !andb_true_iff in Eg.
+  rewrite F, Erq. unfold blocking_reservations. cbn [negb N.eqb andb orb]. rewrite Eres. cbn [negb N.eqb orb]. unfold m_node_guard in Eg. rewrite !andb_true_iff in Eg.
   destruct Eg as [[[[G1 _] _] _] G2]. rewrite Hid in G2. destruct (find_alloc_some _ _ _ Eask) as [_ Ek]. rewrite Ek in G2. apply negb_true_iff in G2. rewrite G2, G1. reflexivity. Qed.
 
 (* ------------------------------------------------------------------ C01.5: every covered step preserves the invariant *)
